@@ -430,8 +430,19 @@ def rule_cfg_twins(ctx, rule='RF-O'):
         for bi, t in b.calls():
             if (local_target(ctx.eng(cfg), t) or '').endswith('calculate_random_scalars'):
                 d = describe(zf, t['args'][0])
-                yield Ob(rule, '%s#count-term' % cc, d == '(M Add 2)' or d.replace(' ', '') == '(len(committed_messages_scalars)Add2)', 'count = M + 2', '',
-                         fact={'desc': d}, expected='(len(committed_messages_scalars) Add 2)')
+                term = zf.term_op(t['args'][0])
+                ok = False
+                if term is not None and term[1] == 2 and (term[0] or '').startswith('len:'):
+                    # the counted list is the committed-messages parameter (possibly after Option defaulting / a copy)
+                    from rf_consts import _trace_identity
+                    nm = term[0][4:]
+                    kp = b.param_index('committed_messages_scalars')
+                    if nm == 'committed_messages_scalars':
+                        ok = True
+                    elif nm.startswith('_') and nm[1:].isdigit() and kp is not None:
+                        ok = _trace_identity(zf.fd, b, {'k': 'copy', 'pl': {'l': int(nm[1:])}})[0] == kp
+                yield Ob(rule, '%s#count-term' % cc, ok, 'count = M + 2', '',
+                         fact={'desc': d, 'term': tfmt(term)}, expected='len(committed_messages_scalars) + 2')
 
 
 # ---------------------------------------------------------------------------- RF-I (BBS)
